@@ -667,8 +667,10 @@ class PeerCase:
                 rec["bytes"] = bytes(got)
                 rec["eof"] = "reset" if ch.reset else ("clean" if (ch.tls is None or ch.clean_eof) else "truncated")
                 rec["eof_time"] = time.time()
-                if ch.tls is not None and ch.clean_eof:
+                if ch.tls is not None and ch.clean_eof and spec.get("answer_close_notify", True):
                     ch.tls_shutdown(wait_peer=False)
+                # (otherwise: a server that takes the client's close-notify as the end of the file and just closes -
+                # the client's TLS shutdown ends in a plain end of stream, which is no error)
                 ch.close()
             else:
                 # accept and hold: closed when the client closes
